@@ -720,6 +720,21 @@ def handleE2X (kn : List Nat) (mode : String) (code : Nat) (msg det : Bytes) (re
     | none => [("observed-parses", false)]
   (join model, verdict vd)
 
+/-- `tx = 2`: the call crosses tonic-web's two layers.  Everything the plain model predicts must
+hold as it is — the grpc-web translation is invisible — except for the one header the server layer
+owns: `coerce_response` overwrites the response's `content-type` with the grpc-web one, and that
+is what the client's view of the response head (the part after `client`) shows. -/
+def throughWeb (model : String) : String :=
+  let ct := hex (HMap.name "content-type")
+  let grpc := hex (Ascii.ofString "application/grpc")
+  let web := hex (Ascii.ofString "application/grpc-web+proto")
+  let rec go (inClient : Bool) (prev : String) : List String → List String
+    | [] => []
+    | t :: ts =>
+      let t' := if inClient && prev == ct && t == grpc then web else t
+      t' :: go (inClient || t == "client") t ts
+  join (go false "" (model.splitOn " "))
+
 def handle (case obs : List String) : String × String :=
   let v := Variant.fixed
   match case with
@@ -952,7 +967,10 @@ def handle (case obs : List String) : String × String :=
       | some (resp, r2) =>
         match parseTyped r2 with
         | some (stmd, []) =>
-          if c ≤ 16 && ["ok", "err", "sserr", "umix"].contains mode then handleE2X kn mode c m d req resp stmd obs else bad
+          if c ≤ 16 && ["ok", "err", "sserr", "umix"].contains mode then
+            let (mo, vd) := handleE2X kn mode c m d req resp stmd obs
+            (if kn.getD 8 0 == 2 then throughWeb mo else mo, vd)
+          else bad
         | _ => bad
       | none => bad
     | _, _, _, _, _ => bad
